@@ -45,8 +45,6 @@ package main
 
 import (
 	_ "embed"
-	"encoding/json"
-	"flag"
 	"fmt"
 	"go/ast"
 	"go/printer"
@@ -67,7 +65,7 @@ type AllowSpec struct {
 	Pkg      string            `json:"pkg"`
 	Func     string            `json:"func"` // anchor
 	Expr     string            `json:"expr"`
-	Effects  string            `json:"effects"`
+	Effects  []string          `json:"effects"` // effects the site may have besides the harmless ones
 	Count    int               `json:"count"`
 	Reason   string            `json:"reason"`
 	Theorem  string            `json:"theorem"`
@@ -85,7 +83,10 @@ type Config struct {
 	Packages  []string      `json:"packages"`
 	Sorters   []NamedReason `json:"sorters"`
 	PureCalls []NamedReason `json:"pure_calls"`
-	Allow     []AllowSpec   `json:"allow"`
+	// Warm: functions that fill a cache on their first call per element and only read afterwards:
+	// a call is harmless in a function where an earlier walk in sorted order made it already.
+	Warm  []NamedReason `json:"idempotent_after_sorted_walk"`
+	Allow []AllowSpec   `json:"allow"`
 }
 
 // ---------- program model ----------
@@ -98,6 +99,7 @@ type fn struct {
 	callers map[*fn]bool
 	anchor  *fn
 	impure  bool
+	asValue bool
 	// resultTaint[i] != "" : result i is a slice in map order of that origin
 	resultTaint map[int]string
 	// helper: index of the func-typed parameter that is called for every element of a map walk
@@ -136,8 +138,19 @@ type analyzer struct {
 	taintWhy map[types.Object]string
 	changed  bool
 	// sort facts: element type -> least number of comparator keys
-	sortKeys map[string]int
-	notes    []string
+	sortKeys  map[string]int
+	sortWhere map[string][]string
+	sortSeen  map[*ast.CallExpr]bool
+	notes     []string
+	fnIx      map[*fn]*fnIndex
+	fresh     map[*fn]bool
+	queue     []taint
+	done      map[string]bool
+	fine      [][4]string
+	ourPkg    map[string]bool
+	summaries map[*fn][]string
+	warmOK    map[string]bool
+	walking   map[*ast.FuncLit]bool
 }
 
 var pureStd = map[string]bool{
@@ -237,6 +250,9 @@ func (a *analyzer) calleeName(p *packages.Package, call *ast.CallExpr) (name str
 		n := o.Name()
 		if sig, ok := o.Type().(*types.Signature); ok && sig.Recv() != nil {
 			rt := sig.Recv().Type()
+			if _, isIface := rt.Underlying().(*types.Interface); isIface && o.Pkg() != nil && a.ourPkg[o.Pkg().Path()] {
+				return o.Pkg().Name() + ".<iface>." + n, o, "iface"
+			}
 			ptr := ""
 			if pt, ok := rt.(*types.Pointer); ok {
 				rt = pt.Elem()
@@ -304,11 +320,28 @@ func (a *analyzer) index() {
 					a.byObj[o].callers[f] = true
 				}
 			}
-			// a function mentioned as a value counts as called from here
-			if id, ok := n.(*ast.Ident); ok {
+			return true
+		})
+	}
+	// a function that is used as a value (registered, passed on) is an entry point of its own
+	for _, f := range a.fns {
+		called := map[*ast.Ident]bool{}
+		ast.Inspect(f.decl.Body, func(n ast.Node) bool {
+			if c, ok := n.(*ast.CallExpr); ok {
+				switch fu := ast.Unparen(c.Fun).(type) {
+				case *ast.Ident:
+					called[fu] = true
+				case *ast.SelectorExpr:
+					called[fu.Sel] = true
+				}
+			}
+			return true
+		})
+		ast.Inspect(f.decl.Body, func(n ast.Node) bool {
+			if id, ok := n.(*ast.Ident); ok && !called[id] {
 				if o, ok := f.pkg.TypesInfo.Uses[id].(*types.Func); ok {
 					if g, ok := a.byObj[o.Origin()]; ok {
-						g.callers[f] = true
+						g.asValue = true
 					}
 				}
 			}
@@ -336,7 +369,7 @@ func (a *analyzer) anchorOf(f *fn, busy map[*fn]bool) *fn {
 	if f.anchor != nil {
 		return f.anchor
 	}
-	if exportedFn(f) || busy[f] {
+	if exportedFn(f) || f.asValue || busy[f] {
 		if !busy[f] {
 			f.anchor = f
 		}
@@ -696,6 +729,12 @@ func (a *analyzer) impureWhy(f *fn, body ast.Node, freshFn map[*fn]bool) string 
 				g := a.byObj[o]
 				if g.impure && !a.pureOK[g.qname()] {
 					set("calls " + g.qname())
+				}
+			case "iface":
+				for _, g := range a.fns {
+					if g.decl.Recv != nil && g.decl.Name.Name == o.Name() && g.impure && !a.pureOK[g.qname()] {
+						set("calls " + g.qname() + " through an interface")
+					}
 				}
 			case "external":
 				if !pureStd[name] && !a.pureOK[name] {
